@@ -89,7 +89,7 @@ func wktFloat(c *ctx) float64 {
 func wktPrintable(g orb.Geometry) bool { // polygons / multi-lines with a zero-vertex part print "()": not WKT
 	switch v := g.(type) {
 	case orb.Ring:
-		return len(v) > 0
+		return true // the empty ring is an empty value: POLYGON EMPTY
 	case orb.Polygon:
 		for _, r := range v {
 			if len(r) == 0 {
